@@ -442,3 +442,23 @@ Definition check_consumer_never_waits (env : list (string * cmd)) : bool :=
   | Some b => forallb (fun p => negb (waits_somewhere (fst p))) (all_paths env b)
   | None => false
   end.
+
+(** ---- policy before data, path by path (independent of the abstract interpreter) ---- *)
+(** on one path: every handler call precedes the first write of the cache, and m.mu is never released by an explicit
+    unlock (only by the deferred unlock of the function itself, when the path ends) *)
+Fixpoint handlers_before_write (wrote : bool) (p : list atom) : bool :=
+  match p with
+  | [] => true
+  | AHandler :: r => negb wrote && handlers_before_write wrote r
+  | AAccess f _ w :: r => handlers_before_write (wrote || (w && String.eqb f "cache")) r
+  | _ :: r => handlers_before_write wrote r
+  end.
+Definition never_unlocks_lm (p : list atom) : bool :=
+  forallb (fun a => match a with ARel LM _ => false | _ => true end) p.
+Definition starts_write_section (p : list atom) : bool :=
+  match p with AAcq LM true :: ADefer LM true :: _ => true | _ => false end.
+Definition check_policy_paths (env : list (string * cmd)) : bool :=
+  match aget "UpdateResource" env with
+  | Some b => forallb (fun p => starts_write_section (fst p) && handlers_before_write false (fst p) && never_unlocks_lm (fst p)) (all_paths env b)
+  | None => false
+  end.
